@@ -1044,7 +1044,10 @@ class Interp:
                     self.findings.append(Finding('label-clash', 'list over %r indexed by a loop over %r: %s' % (v.label, k.label, up(e)), e, mod.path))
                     return Unk('label clash', e, definite=True)
                 return v.elem
-            if isinstance(k, int):
+            if isinstance(k, int) and not isinstance(k, bool):
+                if v.label is not None:
+                    self.positional.append((v.label, k, mod.path, e.lineno))
+                    return _element_at(v.elem, v.label, k)
                 return v.elem
             return Unk('generic list index', e)
         if isinstance(v, Shape):
@@ -1791,6 +1794,29 @@ def _is_arange(p):
         if c == 1 and len(m) == 1 and m[0][1] == 1 and m[0][0][0] == 'fn' and m[0][0][1] == 'arange':
             return m[0][0][2][1]
     return None
+
+
+def _element_at(v, label, k, _memo=None):
+    """the element at the constant position k of a generic list: every term that depends on the list's
+    axis is evaluated at k"""
+    memo = {} if _memo is None else _memo
+    if isinstance(v, Arr):
+        if label in alg.poly_labels(v.poly):
+            return v.with_(poly=alg.mk_fn('at', B(label, v.poly), P(num(k))))
+        return v
+    if isinstance(v, Obj):
+        if id(v) in memo:
+            return memo[id(v)]
+        o = Obj(v.cls, {}, v.name)
+        memo[id(v)] = o
+        for kk, x in v.attrs.items():
+            o.attrs[kk] = _element_at(x, label, k, memo)
+        return o
+    if isinstance(v, dict):
+        return {kk: _element_at(x, label, k, memo) for kk, x in v.items()}
+    if isinstance(v, (list, tuple)):
+        return type(v)(_element_at(x, label, k, memo) for x in v)
+    return v
 
 
 def _under_mask(poly, mask):
